@@ -143,6 +143,8 @@ def main(argv=None):
     if not mine:
         print('no contracts registered for %s' % a.prop)
         return 3
+    if a.tier == 'thorough':
+        os.environ['PYVC_RECHECK'] = '1'
     _CONTRACTS = mine
     ctx = multiprocessing.get_context('fork')
     results = [None] * len(mine)
@@ -150,6 +152,23 @@ def main(argv=None):
         for i, r in pool.imap_unordered(_work, range(len(mine))):
             results[i] = r
     return report(a, seed, mine, results, t0)
+
+
+def second_solver(results):
+    """thorough tier: discharged queries re-decided by independent solver builds (capped per contract)"""
+    tot = {'queries': 0, 'skipped_over_cap': 0, 'tools': {}, 'disagreements': []}
+    for r in results:
+        st = getattr(r, 'recheck', None)
+        if not st:
+            continue
+        tot['queries'] += st['queries']
+        tot['skipped_over_cap'] += st['skipped']
+        tot['disagreements'] += st['disagree']
+        for t, e in st['tools'].items():
+            x = tot['tools'].setdefault(t, {'unsat': 0, 'sat': 0, 'inconclusive': 0, 'time_s': 0.0})
+            for k in x:
+                x[k] = round(x[k] + e[k], 3)
+    return tot
 
 
 def load_known():
@@ -404,6 +423,7 @@ def report(a, seed, mine, results, t0):
             'sentinels': sentinels,
             'known_findings': [{'what': w, 'instances': n} for w, n in known_hits.items()],
             'cross_check': xc,
+            'second_solver': second_solver(results),
             'sources': sorted(set((p, h) for r in results for (p, h) in r.sources.values())),
             'samples': [{'obligation': k, 'clause': v['detail']} for k, v in list(sorted(named.items()))[:6]],
             'solver_time_s': round(sum(r.solver_time for r in results), 3),
@@ -420,6 +440,12 @@ def report(a, seed, mine, results, t0):
           '%d bounded; cross-check %d/%d; wall %.1fs' % (
               prop, n_ob, n_dis, ev['coverage']['path_level_vcs'], len(mine), len(known_names & set(named)),
               len(bounded) + len(nb_table), xc['agree'], xc['inputs'], wall))
+    ss = ev['coverage']['second_solver']
+    if ss['queries']:
+        print('%s: second solvers re-decided %d discharged queries (%d over the per-contract cap skipped): %s' % (
+            prop, ss['queries'], ss['skipped_over_cap'],
+            '; '.join('%s unsat %d, sat %d, inconclusive %d, %.0fs' % (t, e['unsat'], e['sat'], e['inconclusive'],
+                                                                      e['time_s']) for t, e in sorted(ss['tools'].items()))))
     if a.verbose:
         for k, v in sorted(ob.items()):
             if v['discharged'] != v['n']:
@@ -438,7 +464,7 @@ def report(a, seed, mine, results, t0):
 
 
 NATIVE_BOUNDED = {'C01': 'harness/bounded_tags.py', 'C02': 'harness/bounded_tags.py',
-                  'C03': 'harness/bounded_tags.py'}
+                  'C03': 'harness/bounded_tags.py', 'C08': 'harness/bounded_cards.py'}
 
 
 def native_bounded(prop, a, known, known_hits, lines, seed):
